@@ -346,6 +346,49 @@ LawC13(cs) ==
     [] OTHER -> TRUE
 
 ---------------------------------------------------------------------------
+(* C14: $encode transforms, stacks, argument validation.  The byte-level     *)
+(* codecs (base64, sha256, json/yaml/toml text) are environment functions:   *)
+(* cases that need one are printed with err = "need" and skipped by the      *)
+(* replayer; the trace direction supplies them from independent              *)
+(* implementations.                                                          *)
+Vals14 == { S("abc"), S(""), I("42"), F("1.5"), True, EmptyList, EmptyMap,
+            L(<<S("a"), S("b")>>), L(<<S("a"), I("1"), F("2.5"), False>>), L(<<L(<<S("x"), S("y")>>), S("z"), L(<<>>)>>),
+            Mk2("b", S("2"), "a", S("1")), Mk3("k", S("v"), "e", S(""), "n", I("3")),
+            Mk2("multi", L(<<S("p"), S("q")>>), "one", S("r")), L(<<Single("a", S("1")), Mk2("b", S(""), "c", L(<<I("1"), I("2")>>))>>),
+            L(<<Single("a", S("1")), S("notamap")>>), Single("nested", Single("deep", I("1"))) }
+Structural == {"join", "join:,", "join: - ", "prefix:--", "prefix:", "flatten", "tolist:=", "tolist::", "values", "flags"}
+Malformed == {"join:a:b", "prefix", "prefix:a:b", "flatten:x", "tolist", "tolist:a:b", "values:x", "base64:x", "sha256:1", "json:x", "bogus", ""}
+Codecs14 == {"base64", "sha256", "json", "yaml", "toml"}
+Trans14 == Structural \cup Malformed \cup Codecs14
+Stacks14 == {<<t>> : t \in Trans14} \cup {<<a, b>> : a \in Structural \cup {"base64"}, b \in Structural \cup {"bogus", "sha256"}}
+            \cup (IF Bound >= 3 THEN {<<a, b, cc>> : a \in Structural, b \in Structural, cc \in Structural \cup {"json"}} ELSE {})
+EncArg(st) == IF Len(st) = 1 THEN S(st[1]) ELSE L([i \in DOMAIN st |-> S(st[i])])
+CasesC14 ==
+  {CaseX(<<Single("out", Mk2("$encode", EncArg(st), "$value", v))>>, NoEnv, "value", <<v, st>>) : v \in Vals14, st \in Stacks14}
+  \cup {CaseX(<<Single("out", v %% Single("$encode", EncArg(st)))>>, NoEnv, "maphost", <<v, st>>) : v \in {x \in Vals14 : IsMap(x)}, st \in Stacks14}
+  \cup {CaseX(<<Single("out", L(<<Single("$encode", EncArg(st))>> \o Elems(v)))>>, NoEnv, "listhost", <<v, st>>) : v \in {x \in Vals14 : IsList(x)}, st \in Stacks14}
+  \cup {CaseX(<<Single("out", Mk2("$encode", a, "$value", S("x")))>>, NoEnv, "badarg", <<a>>) : a \in {I("1"), True, EmptyMap, L(<<I("1")>>), L(<<S("join"), EmptyMap>>)}}
+  \cup {CaseX(<<Single("out", L(<<Single("$encode", S("join")), Single("$encode", S("values")), S("x")>>))>>, NoEnv, "twomarkers", <<>>) : dummy \in {1}}
+
+Ctx14 == [docs |-> <<>>, fuel |-> MaxFuel, vars |-> <<>>, codec |-> <<>>, D |-> Null]
+RECURSIVE FoldEnc(_, _)
+FoldEnc(v, st) == IF Len(st) = 0 THEN Ok(v)
+                  ELSE LET r == EncodeAny(v, Ctx14, S(st[1])) IN IF ~r.ok THEN r ELSE FoldEnc(r.v, Tail(st))
+LawC14(cs) ==
+  CASE cs.tag \in {"value", "maphost", "listhost"} ->
+         LET v == cs.aux[1]  st == cs.aux[2]
+             r == EncodeAny(v, Ctx14, EncArg(st))
+         IN /\ r = FoldEnc(v, st)                                                   \* a list of transforms applies left to right
+            /\ (\E i \in DOMAIN st : st[i] \in Malformed) => ~(r.ok)                \* malformed arguments are errors
+            /\ (st = <<"flags">>) => r = FoldEnc(v, <<"tolist:=", "prefix:--">>)     \* flags = tolist:= then prefix:--
+            /\ (st = <<"values">> /\ IsMap(v)) => r = Ok(L([i \in DOMAIN SortedKeys(v) |-> At(v, SortedKeys(v)[i])]))
+            /\ (st = <<"join:,">> /\ IsList(v)) => r = Ok(S(JoinStr([i \in DOMAIN Elems(v) |-> Fmt(Elems(v)[i])], ",")))
+            /\ (st = <<"prefix:--">> /\ IsList(v)) => r = Ok(L([i \in DOMAIN Elems(v) |-> S("--" \o Fmt(Elems(v)[i]))]))
+            /\ (st = <<"flatten">> /\ IsList(v) /\ \A i \in DOMAIN Elems(v) : ~IsList(Elems(v)[i])) => r = Ok(v)
+    [] cs.tag \in {"badarg", "twomarkers"} -> ~EvalS(cs.docs, NoEnv).ok
+    [] OTHER -> TRUE
+
+---------------------------------------------------------------------------
 (* C08: reference graphs on three named subtrees; every node has at most    *)
 (* one outgoing reference, in every form                                    *)
 Nodes08 == {"x", "y", "z"}
@@ -383,9 +426,9 @@ LawC08(cs) ==
   /\ StrictCycle(cs.aux) => ~r.ok
   /\ (Acyclic(cs.aux) /\ \A i \in 1..3 : cs.aux[i][1] # "selfwhole") => (r.ok \/ r.err # "circular")
 
-Cases == CASE Family = "C08" -> CasesC08 [] Family = "C06" -> CasesC06 [] Family = "C07" -> CasesC07 [] Family = "C10" -> CasesC10
+Cases == CASE Family = "C14" -> CasesC14 [] Family = "C08" -> CasesC08 [] Family = "C06" -> CasesC06 [] Family = "C07" -> CasesC07 [] Family = "C10" -> CasesC10
            [] Family = "C11" -> CasesC11 [] Family = "C12" -> CasesC12 [] Family = "C13" -> CasesC13
-Law(cs) == CASE Family = "C08" -> LawC08(cs) [] Family = "C06" -> LawC06(cs) [] Family = "C07" -> LawC07(cs) [] Family = "C10" -> LawC10(cs)
+Law(cs) == CASE Family = "C14" -> LawC14(cs) [] Family = "C08" -> LawC08(cs) [] Family = "C06" -> LawC06(cs) [] Family = "C07" -> LawC07(cs) [] Family = "C10" -> LawC10(cs)
              [] Family = "C11" -> LawC11(cs) [] Family = "C12" -> LawC12(cs) [] Family = "C13" -> LawC13(cs)
 
 (* chains (C06 layered, C07, C12 override) are layered first, as two layers of one file chain *)
